@@ -78,6 +78,10 @@ struct SA {
 template<typename A> inline A mkAlloc(int id) { if constexpr (std::is_constructible<A, int>::value) return A(id); else { (void)id; return A(); } }
 template<typename A> inline int allocId(const A& a) { if constexpr (std::is_constructible<A, int>::value) return a.id; else { (void)a; return 0; } }
 
+// a moved-from wrapper is only destroyed and constructed anew (assigning to it is the open finding F15
+// when the allocator does not propagate on that assignment)
+template<typename C, typename A> inline void recreate(C& c, const A& a) { c.~C(); ::new (static_cast<void*>(&c)) C(a); }
+
 // ---------------------------------------------------------------- one differential run
 struct Run {
 	Ctx& c; Suite& s; std::string suite, kind;
